@@ -201,6 +201,27 @@ impl<T> Sender<T> {
         self.inner.send(msg).await
     }
 
+    /// The rest of async-channel's surface passes straight through (untraced): code under test that starts using
+    /// it must still build and run - a blocking send on a full channel then blocks exactly as the real one does.
+    pub fn send_blocking(&self, msg: T) -> Result<(), SendError<T>> {
+        self.inner.send_blocking(msg)
+    }
+    pub fn close(&self) -> bool {
+        self.inner.close()
+    }
+    pub fn is_full(&self) -> bool {
+        self.inner.is_full()
+    }
+    pub fn capacity(&self) -> Option<usize> {
+        self.inner.capacity()
+    }
+    pub fn receiver_count(&self) -> usize {
+        self.inner.receiver_count()
+    }
+    pub fn sender_count(&self) -> usize {
+        self.inner.sender_count()
+    }
+
     pub fn is_closed(&self) -> bool {
         self.inner.is_closed()
     }
@@ -231,6 +252,21 @@ impl<T> Receiver<T> {
 
     pub async fn recv(&self) -> Result<T, RecvError> {
         self.inner.recv().await
+    }
+    pub fn close(&self) -> bool {
+        self.inner.close()
+    }
+    pub fn is_full(&self) -> bool {
+        self.inner.is_full()
+    }
+    pub fn capacity(&self) -> Option<usize> {
+        self.inner.capacity()
+    }
+    pub fn receiver_count(&self) -> usize {
+        self.inner.receiver_count()
+    }
+    pub fn sender_count(&self) -> usize {
+        self.inner.sender_count()
     }
 
     /// Blocking receive.  While tracing it is a polling loop of traced `try_recv`s in which only the
